@@ -116,7 +116,7 @@ pub fn check_pair(rep: &mut Report, orc: &mut Oracle, a: &StMoc, b: &StMoc) -> b
     match r {
       Err(p) => {
         ok = false;
-        rep.violation_c(&format!("ST union ({}) fails: {}", name, p), &format!("{} # variant={}", case, name), &p, "", "C08 terminates without failure", &panic_class(&p));
+        rep.violation_c(&format!("ST union ({}) fails: {}", name, p), &format!("{} # variant={}", case, name), &p, "", "C08 terminates without failure", &format!("{}|{}", panic_class(&p), time_relation(a, b)));
       }
       Ok((out, bad_labels)) => {
         if let Some(bl) = bad_labels.first() {
